@@ -12,9 +12,10 @@
 (* `units` under its short name, and its long name is recorded as an alias *)
 (* of the short one; base units are nevertheless units whose               *)
 (* dimensionality is their own, so when X is exactly one base unit to the  *)
-(* first power the listing MAY also contain that base unit's name (short   *)
-(* or long, under the category of either name or under none): admitted,    *)
-(* not required.  For every other X nothing else may be listed.            *)
+(* first power the listing MUST contain that base unit under one of its    *)
+(* names (short or long, under the category of either name or under none): *)
+(* `units for length` without the metre would have a unit of X's           *)
+(* dimensionality missing.  For every other X nothing else may be listed.  *)
 (*                                                                         *)
 (* `factorize X`: every product multiplies out to X's dimensionality; no   *)
 (* product occurs twice.                                                   *)
@@ -34,7 +35,10 @@ Names(S) == {p[2] : p \in S}
 ListedSet(listed) == {listed[i] : i \in DOMAIN listed}
 
 EachOnce(listed) == \A i, j \in DOMAIN listed : listed[i][2] = listed[j][2] => i = j
-NoneMissing(reg, d, listed) == Names(Required(reg, d)) \subseteq Names(ListedSet(listed))
+\* the base unit itself, when X is exactly that base unit to the first power
+BaseListed(reg, d, listed) ==
+  \A b \in reg.base : DEq(d, DBase(b.name)) => \E p \in ListedSet(listed) : p[2] \in ({b.name, b.long} \ {<<>>})
+NoneMissing(reg, d, listed) == Names(Required(reg, d)) \subseteq Names(ListedSet(listed)) /\ BaseListed(reg, d, listed)
 NoneForeign(reg, d, listed) == Names(ListedSet(listed)) \subseteq Names(Required(reg, d) \cup Optional(reg, d))
 OwnCategory(reg, d, listed) ==
   \A p \in ListedSet(listed) : p[2] \in Names(Required(reg, d) \cup Optional(reg, d)) => p \in Required(reg, d) \cup Optional(reg, d)
@@ -42,6 +46,7 @@ OwnCategory(reg, d, listed) ==
 UnitsForOK(reg, d, listed) ==
   /\ EachOnce(listed)
   /\ Required(reg, d) \subseteq ListedSet(listed)
+  /\ BaseListed(reg, d, listed)
   /\ ListedSet(listed) \subseteq Required(reg, d) \cup Optional(reg, d)
 
 \* the conjunction of the four diagnostics is the law
